@@ -252,15 +252,19 @@ LEVEL_TEXT = ("Proved (Lean, all inputs): needs_decomposition is a set of NAMES 
               "determinant has the same non-zero sign in every two sources AND on the whole segment between the two matrices - decidable: "
               "mixDet >= 0 on the sign's side or mixDet^2 < 4 det det; proved sound AND complete) stay alike, hence point-compatible, through "
               "the CFF pre-processor and the TrueType pre-processor (cu2qu contract measured) in the plain configurations (no skipExportGlyphs, "
-              "no custom filters, no flattenComponents), where the decomposing run works on the pristine source layers; a kernel-checked "
-              "witness (mirror-x / mirror-y: zero matrix half-way) shows that 'equal non-zero signs' alone is not enough. The driver evaluates "
+              "no custom filters, no flattenComponents: one decomposing run, starting from the sources) provided that run's depth-sorted "
+              "iteration order is topological (orderTopo, decidable: no glyph is visited after one of its bases - ufo2ft's depth key, "
+              "computed in the first glyph set that has the glyph, does not guarantee it; false in ~3% of the generated designspace "
+              "families); a kernel-checked witness (mirror-x / mirror-y: zero matrix half-way) shows that 'equal non-zero signs' alone is "
+              "not enough. The driver evaluates "
               "every (decidable) hypothesis on every generated family: see the tags thm:<name>:applies / hyp-false:<hypothesis> in the "
               "distribution. The executable model is compared point for point with the glyph sets of the real compilers; compatibility, "
               "jointness, equal 2x2 and the sparse-master predicate are evaluated on the real output (glyph sets and compiled glyf/CFF).")
 LEVEL_NOTE = ("Trusted: Lean kernel + standard axioms; correspondence harness. Partial: cu2qu's joint-conversion contract is a hypothesis "
               "of C09_cu2qu_partial / C09_pipeline_inst_partial (measured on every family: info.cu2quContract, hyp cu2quAlike) and 'cu2qu keeps "
               "keys, names, advances, components' a hypothesis of C09_sparse / C09_twoByTwo (measured: hyp cu2quOk); C09_twoByTwo and holdsJoint "
-              "are not proved for builds with an Instantiator, and C09_pipeline_inst_partial not beyond the first glyph-modifying filter run: "
-              "afterwards the Instantiator's Variator cache may be stale relative to the live glyph sets (the model's depth order does not "
-              "exclude that a base is revisited) and matrices composed by an earlier filter need not be sign-stable (signStable is not closed "
-              "under composition). Four finding families are registered as proposals in harness/findings_C09.json.")
+              "are not proved for builds with an Instantiator, and C09_pipeline_inst_partial neither beyond the first decomposing run nor for "
+              "non-topological iteration orders: once a base has been modified before its user is visited, a master that has the base sees "
+              "the modified glyph while a sparse master interpolates a stale (cached) or fresh Variator, so the views no longer agree glyph by "
+              "glyph; and matrices composed by an earlier filter need not be sign-stable (signStable is not closed under composition). "
+              "The model follows /repo fix 61a81a2 (the Instantiator reads the pre-processor's copies from the start). Four finding families are registered as proposals in harness/findings_C09.json.")
